@@ -72,6 +72,7 @@ StepField(e) ==
                        THEN /\ Check(Len(e.ivs) = Len(z.v.periods) + (IF z.v.hasTail THEN 0 ELSE 0), "number_of_precalculated_periods")
                             /\ Check(\A k \in 1..Len(e.ivs) : k <= Len(z.v.periods) => PeriodMatches(e.ivs[k], z.v, k),
                                      "precalculated_transitions_names_offsets_as_in_file")
+                            /\ (Has(e, "inside_bad") => Check(e.inside_bad = 0, "instants_inside_a_stored_period_are_served_that_period"))
                             /\ Check(e.has_tail = z.v.hasTail, "tail_presence_as_in_file")
                             /\ IF z.v.hasTail
                                THEN /\ Check(Len(e.tail) >= 1 /\ e.tail[1].start = z.v.tailStart, "tail_starts_where_periods_end")
